@@ -13,6 +13,14 @@ class Cut(BaseException):
     """Raised by a harness wrapper to end an execution at the horizon."""
 
 
+class Runaway(BaseException):
+    """The code under test keeps consuming random draws without ever finishing (e.g. a redraw-until loop that the scripted
+    stream can never satisfy).  Not caught by the explorer: the case runner reports it as a violation of its own kind."""
+
+
+MAX_CHOICES = 4000
+
+
 class Ctx:
     __slots__ = ("prefix", "trace", "weight", "obs", "cost", "cut", "labels")
 
@@ -30,6 +38,8 @@ class Ctx:
         n = len(weights)
         if n == 0:
             raise HarnessError("empty choice")
+        if i >= MAX_CHOICES:
+            raise Runaway(f"more than {MAX_CHOICES} random draws in one execution")
         if i < len(self.prefix):
             k = self.prefix[i]
             if k >= n:
